@@ -35,7 +35,7 @@ def queries(tier):
     # an operation pending on a dialer (nng_dial / nng_dialer_start_aio) must be completed when the dial ends with a close, cancel or stop result
     from props import C14, C02
     for q in C14.queries(tier) + C02.queries(tier):
-        if q.name in ("dialer-connect-user-aio", "dialer-connect-any-result") or q.name.startswith(("dialer-start-aio", "pipe-reap")):
+        if q.name in ("dialer-connect-user-aio", "dialer-connect-any-result") or q.name.startswith(("dialer-start-aio", "pipe-reap")) or (q.name.startswith("tcp-dialer-") and "CL" in q.defs.get("SKEL", "")):
             q.group = "~" + q.group
             if q.name not in set(x.name for x in qs):
                 qs.append(q)
